@@ -367,7 +367,12 @@ func (v *Value) Contains(other *Value) bool {
 	case reflect.Slice, reflect.Array:
 		for i := 0; i < baseValue.Len(); i++ {
 			item := baseValue.Index(i)
-			if other.EqualValueTo(AsValue(item.Interface())) {
+			// The items of a list defined in a template ([a, b, c]) are values already
+			itemValue, isValue := item.Interface().(*Value)
+			if !isValue {
+				itemValue = AsValue(item.Interface())
+			}
+			if other.EqualValueTo(itemValue) {
 				return true
 			}
 		}
